@@ -283,7 +283,15 @@ def mkStrm (c : H2Conn) (sid : Nat) (endStream : Bool) (status body : Nat) (reqL
   { id := sid, st := if endStream then .hcRemote else .open, swin := c.initWin,
     reqLen := if endStream then 0 else reqLen, status := status, pending := body, incremental := incr }
 
-def addStrm (c : H2Conn) (s : Strm) : H2Conn := { c with streams := c.streams ++ [s], cid := s.id }
+/-- r->x.h2.prio: urgency (3 for every request in scope) and inverted 'incremental' bit -/
+def Strm.prio (s : Strm) : Nat := if s.incremental then 6 else 7
+
+/-- the new stream is appended to h2c->r[] and h2_apply_priority_update() moves it in front of
+    the trailing streams of lower priority (stream ids only grow, so ties keep arrival order) -/
+def addStrm (c : H2Conn) (s : Strm) : H2Conn :=
+  { c with streams := (c.streams.reverse.dropWhile fun x => x.prio > s.prio).reverse ++ [s] ++
+                        (c.streams.reverse.takeWhile fun x => x.prio > s.prio).reverse,
+           cid := s.id }
 
 /-- HEADERS opening a new stream while a slot is free -/
 def newStream (c : H2Conn) (sid : Nat) (kind : HdrKind) (endStream : Bool) : Res :=
